@@ -98,7 +98,11 @@ def replay(c, prop, cases, label, inmem=False, timeout=1500):
     d = vlib.scratch("lsm-")
     inp = os.path.join(d, "cases.ndjson")
     with open(inp, "w") as f:
-        for cs in cases:
+        for i, cs in enumerate(cases):
+            # every third case runs with BaseTableSize = 1 (each key of the output starts a new table):
+            # the table-boundary logic of addKeys is then exercised at every key
+            cs = dict(cs, tiny=(i % 3 == 2))
+            cases[i] = cs
             f.write(json.dumps(cs) + "\n")
     nproc = min(vlib.NCPU, max(1, len(cases) // 10))
     env = vlib.goenv()
